@@ -36,6 +36,7 @@ func c08(c *Ctx) {
 	requesterGuardRule(c, "R9")
 	requestBookkeepingRule(c, "R10")
 	c08R11(c)
+	c08R12(c)
 }
 
 func c08R4(c *Ctx) {
@@ -987,4 +988,95 @@ func c08R11(c *Ctx) {
 		}
 	}
 	c.R.Ob(rule, "bitarray-binary-methods", n >= 2, "-", "", fmt.Sprintf("%d reachable from unrecovered goroutines", n))
+}
+
+// c08R12: nil-receiver sanity panics. Some methods (VoteSet.AddVote ...) panic when called on a nil receiver;
+// RoundState fields that are legitimately nil at times (LastCommit at height 1) must not reach them unguarded
+// on a goroutine without recover when the path is selected by a peer message.
+func c08R12(c *Ctx) {
+	rule := c.R.Rule("R12", "nil-receiver panics: a method that panics when its receiver is nil is called, on a goroutine without recover, on a RoundState field that is assigned nil somewhere (e.g. LastCommit at the first height) only under `field != nil`", 1)
+	// 1. methods that panic on a nil receiver
+	panics := map[*ssa.Function]bool{}
+	for _, rel := range []string{"gemmill/types", "gemmill/consensus/pbft", "gemmill/modules/go-common"} {
+		for _, fn := range c.P.FuncsOfPkg(rel) {
+			if fn.Signature.Recv() == nil || fn.Blocks == nil || len(fn.Params) == 0 {
+				continue
+			}
+			f := c.Fn(fn)
+			for _, b := range fn.Blocks {
+				for _, ins := range b.Instrs {
+					isPanic := false
+					if _, ok := ins.(*ssa.Panic); ok {
+						isPanic = true
+					}
+					if c.NR.IsNoRetCall(ins) {
+						isPanic = true
+					}
+					if !isPanic {
+						continue
+					}
+					gs := f.Guards(ins)
+					if len(gs) == 1 {
+						for _, s := range cfgx.NormGuard(gs[0]) {
+							if s == "(a0 == nil)" {
+								panics[fn] = true
+							}
+						}
+					}
+				}
+			}
+		}
+	}
+	// 2. RoundState fields that are assigned nil somewhere
+	nilable := map[string]bool{}
+	for _, fn := range c.P.FuncsOfPkg("gemmill/consensus/pbft") {
+		if fn.Blocks == nil {
+			continue
+		}
+		for _, b := range fn.Blocks {
+			for _, ins := range b.Instrs {
+				if st, ok := ins.(*ssa.Store); ok && cfgx.IsNilConst(st.Val) {
+					if fa, ok := st.Addr.(*ssa.FieldAddr); ok && strings.Contains(exprOf(fa.X), "RoundState") {
+						e := exprOf(fa)
+						nilable[e[strings.LastIndex(e, ".")+1:]] = true
+					}
+				}
+			}
+		}
+	}
+	// 3. calls in unrecovered scope
+	scope, _ := c.unrecoveredScope()
+	var fns []*ssa.Function
+	for fn := range scope {
+		if fn.Blocks != nil && strings.HasPrefix(core.FuncName(fn), core.Mod+"/gemmill/consensus/pbft.") {
+			fns = append(fns, fn)
+		}
+	}
+	sort.Slice(fns, func(i, j int) bool { return core.FuncName(fns[i]) < core.FuncName(fns[j]) })
+	n := 0
+	for _, fn := range fns {
+		f := c.Fn(fn)
+		for _, ci := range f.Calls() {
+			callee := ci.Common().StaticCallee()
+			if callee == nil || !panics[callee] || len(ci.Common().Args) == 0 {
+				continue
+			}
+			if _, isCall := ci.(*ssa.Call); !isCall {
+				continue
+			}
+			re := exprOf(ci.Common().Args[0])
+			if !strings.Contains(re, ".RoundState.") {
+				continue
+			}
+			fld := re[strings.LastIndex(re, ".")+1:]
+			if !nilable[fld] {
+				continue
+			}
+			n++
+			ok := f.HasGuard(ci.(ssa.Instruction), eqs("("+re+" != nil)"))
+			c.R.Ob(rule, "nil-receiver:"+core.Short(core.FuncName(fn))+":"+fld+"."+callee.Name(), ok, c.Pos(ci), core.FuncName(fn),
+				callee.Name()+" panics on a nil receiver and "+fld+" is nil at times (assigned nil in this package); "+guardsText(f, ci.(ssa.Instruction)))
+		}
+	}
+	c.R.Ob(rule, "nil-receiver-panic-methods", len(panics) >= 1, "-", "", fmt.Sprintf("%d methods panic on a nil receiver, %d nil-able RoundState fields, %d call sites examined", len(panics), len(nilable), n))
 }
